@@ -766,6 +766,20 @@ func (t *FnTrans) instrWrites(in ssa.Instruction, l *loopInfo) {
 					}
 				}
 			}
+		case *ssa.Alloc, *ssa.FreeVar:
+			// a scalar variable cell that lives outside the loop (captured or address-taken local): written only there
+			if al, isAl := a.(*ssa.Alloc); isAl && (al.Block() == nil || l.body[al.Block()]) {
+				break
+			}
+			if pt, ok := t.resolve(a.Type()).Underlying().(*types.Pointer); ok {
+				ET := t.resolve(pt.Elem())
+				_, isS := ET.Underlying().(*types.Struct)
+				_, isA := ET.Underlying().(*types.Array)
+				if !isS && !isA {
+					t.noteVia(l, "C."+mangle(t.sortOf(ET)), a)
+					return
+				}
+			}
 		}
 	}
 	switch in.(type) {
